@@ -99,3 +99,13 @@ VARIANTS += [
     dict(id="c05-lock-release-after-failed-acquire", prop="C05", file=JF, expect="R05.5",
          old="    lock_obj.acquire()\n    try:\n        yield\n", new="    try:\n        lock_obj.acquire()\n        yield\n"),
 ]
+
+VARIANTS += [
+    dict(id="c05-repair-release-only-own-lock", prop="C05", expect=None, absent="release-only-after-own-create", file=JF, old="", new="",
+         edits=[dict(file=JF, old="            try:\n                os.symlink(self._lock_target_file, self._lock_file)\n                return True\n",
+                     new="            created = False\n            try:\n                os.symlink(self._lock_target_file, self._lock_file)\n                created = True\n                return True\n"),
+                dict(file=JF, old="            try:\n                open_flags = os.O_CREAT | os.O_EXCL | os.O_WRONLY\n                os.close(os.open(self._lock_file, open_flags))\n                return True\n",
+                     new="            created = False\n            try:\n                open_flags = os.O_CREAT | os.O_EXCL | os.O_WRONLY\n                os.close(os.open(self._lock_file, open_flags))\n                created = True\n                return True\n"),
+                dict(file=JF, count=2, old="            except BaseException:\n                self.release()\n                raise\n",
+                     new="            except BaseException:\n                if created:\n                    self.release()\n                raise\n")]),
+]
